@@ -373,17 +373,16 @@ class SymArray(_np.ndarray):
             return _wrap(self.view(_np.ndarray).astype(dtype, **kw))
         if dtype is bool or dtype is _np.bool_:
             a = _o(self)
-            if not has_sym(a):
-                return _np.array([bool(x) for x in a.flat], dtype=bool).reshape(a.shape)
-            return elementwise(lambda x: x if isinstance(x, _BOOLS) else (x != 0), a)
+            # the caller asks for a genuine boolean array: symbolic truth values are concretised (fork)
+            return _np.array([bool(x if isinstance(x, _BOOLS) else (x != 0)) for x in a.flat], dtype=bool).reshape(a.shape).view(SymArray)
         if dtype in (float, _np.float64, _np.float32, 'float64'):
             if has_sym(self):
                 return self
-            return to_float(self)
+            return to_float(self).view(SymArray)
         if dtype in (int, _np.int64):
             if has_sym(self):
                 return self
-            return _np.array([int(x) for x in _o(self).flat], dtype=int).reshape(self.shape)
+            return _np.array([int(x) for x in _o(self).flat], dtype=int).reshape(self.shape).view(SymArray)
         return _np.ndarray.astype(self, dtype, **kw)
 
     def round(self, decimals=0, **kw):
@@ -435,7 +434,7 @@ def argmax(a, axis=None):
             if xs[i] > xs[best]:
                 best = i
         out[idx] = best
-    return out
+    return out.view(SymArray)     # so that a symbolic mask used to index it is concretised
 
 
 @implements(_np.max, _np.amax)
